@@ -456,8 +456,11 @@ func (v *VM) run() {
 				} else if highIdx > numElements {
 					highIdx = numElements
 				}
+				// the slice is a mutable array: copy the elements so that
+				// writes to it cannot reach the immutable array's storage
 				var val Object = &Array{
-					Value: left.Value[lowIdx:highIdx],
+					Value: append([]Object{},
+						left.Value[lowIdx:highIdx]...),
 				}
 				v.allocs--
 				if v.allocs == 0 {
